@@ -2,7 +2,7 @@ SPECIFICATION Spec
 CONSTANTS
   Mode = "single"
   NMax = 3
-  Hi = 5
+  Hi = 4
   NSmall = 3
   Stride = 1
   CheckDef = TRUE
